@@ -82,6 +82,9 @@ def eq3(a, b):
     return (a == b, hash(a) == hash(b), M.Resource(a) == M.Resource(b) and hash(M.Resource(a)) == hash(M.Resource(b)))
 
 
+NOMINATIVE_PARTIES = ["Thompson", "Holmes", "Chase", "Cooke"]
+
+
 def check_variation(ed_name, var, vol, page):
     """-> (results, status)"""
     canon = f"{vol} {ed_name} {page}"
@@ -89,6 +92,16 @@ def check_variation(ed_name, var, vol, page):
     if c0 is None:
         return [], "canon-not-parsed"
     res = []
+    if var is None and vol == VOLS[0] and page == PAGES[0]:
+        # parties do not matter - not even a party whose name is a nominative reporter (a token of its own that the
+        # citation's token has to displace): the citation after such a name equals the bare one, candidate editions included
+        for party in NOMINATIVE_PARTIES:
+            after = one_case(f"Smith v. {party}, {canon}", canon)
+            if after is None:
+                continue
+            if eq3(after, c0) != (True, True, True) or sorted(e.short_name for e in after.all_editions) != sorted(e.short_name for e in c0.all_editions):
+                res.append(("party-changes-citation", f"{canon!r} after 'Smith v. {party},' : ==,hash,resource = {eq3(after, c0)}, editions {sorted(e.short_name for e in after.all_editions)} vs bare {sorted(e.short_name for e in c0.all_editions)}"))
+                break
     cand0 = c0.exact_editions or c0.variation_editions
     norm = c0.corrected_citation()
     if len(set(cand0)) == 1:
